@@ -11,12 +11,15 @@ for d in sorted(glob.glob(os.path.join(ROOT, "seeded", "*"))):
     readme = open(os.path.join(d, "README.md")).read() if os.path.exists(os.path.join(d, "README.md")) else ""
     title = next((l.strip("# ").strip() for l in readme.splitlines() if l.startswith("#")), "")
     first = ""
-    for l in (m.get("check_output") or "").splitlines():
+    # `check_detects`: the result when the change was first tried; `recheck_detects`: the latest re-run of the current check
+    now = m.get("recheck_detects") if m.get("recheck_detects") is not None else m.get("check_detects")
+    output = m.get("check_output") if m.get("check_detects") else (m.get("recheck_output") or m.get("check_output"))
+    for l in (output or "").splitlines():
         if l.startswith("violation:"):
             parts = l.split(" :: ")
             first = (parts[0].replace("violation: ", "") + ": " + (parts[1] if len(parts) > 1 else ""))[:110]
             break
-    caught = "yes" if m.get("check_detects") else "**no**"
+    caught = "yes" if now else "**no**"
     if m.get("missed_before_strengthening"):
         caught += " (missed at first)"
     rows.append((os.path.basename(d), m["property"], title[:90].replace("|", "/"), caught, first.replace("|", "/")))
